@@ -334,7 +334,7 @@ impl E2e {
         if !matches!(sent, Ok(true)) {
             return false;
         }
-        match self.client.wait_with_timeout::<Option<lsp_types::Hover>>(std::time::Duration::from_secs(20)) {
+        match self.client.wait_with_timeout::<Option<lsp_types::Hover>>(std::time::Duration::from_secs(180)) {
             Ok(Some(_)) => {
                 self.req_id += 1;
                 true
